@@ -15,6 +15,7 @@ import EaselModel.Weights.GSCPerm
 import EaselModel.Weights.AdvLemmas
 import EaselModel.Weights.TreeLemmas
 import EaselModel.Weights.DistanceLemmas
+import EaselModel.Weights.EngineLemmas
 /-! # C16 — sequence weights, identity filtering and clustering follow their definitions
 
   Theorems about the `ℚ` instance of the executable model `EaselModel.Weights` (the `Float` instance of the same
@@ -568,6 +569,82 @@ example : gscTree (α := ℚ) 3 [⟨0, 3, 2, 1⟩, ⟨1, 2, 1, 1⟩] = [6/5, 9/1
 example : ∀ nd ∈ ([⟨0, 3, 1, 1⟩, ⟨1, 2, 0, 0⟩] : List (KNode ℚ)), 0 ≤ nd.l ∧ 0 ≤ nd.r := by
   intro nd h; simp at h; rcases h with rfl | rfl <;> constructor <;> norm_num
 
+/-! ## `cluster_engine` in every mode: `esl_tree_UPGMA`, `esl_tree_WPGMA`, `esl_tree_SingleLinkage`, `esl_tree_CompleteLinkage`
+
+  `linkTree L n d` = the state after the n−1 passes in mode `L` (`Weights/Engine.lean`); `linkTree .upgma = upgma` (the GSC tree).
+  Compared exactly (whole `ESL_TREE`: N, is_linkage_tree, left, right, parent, ld, rd, taxaparent, cladesize, Validate) by op
+  `upgma link=0..3`. All statements for EVERY matrix — ties, zeros, negative entries — unless a hypothesis says otherwise. -/
+
+theorem linkage_is_upgma (n : Nat) (d : Nat → Nat → ℚ) : linkTree .upgma n d = upgma n d := linkTree_upgma n d
+
+/-- every linkage returns a rooted binary tree on the n taxa: n−1 nodes, each joining two different clusters created before
+    it, every taxon and every node but the root a child exactly once -/
+theorem linkage_well_formed (L : Link) (n : Nat) (hn : 2 ≤ n) (d : Nat → Nat → ℚ) :
+    WellFormed n (linkTree L n d).nodes.reverse := linkTree_wellFormed L n hn d
+
+/-- `parent[]` / `taxaparent[]` (`parentIdx`) name a node at a smaller C index that has the cluster as left or right child -/
+theorem linkage_parent_child (L : Link) (n : Nat) (hn : 2 ≤ n) (d : Nat → Nat → ℚ) (c : Nat) (hc : c < 2 * n - 2) :
+    ∃ h : parentIdx (linkTree L n d).nodes c < (linkTree L n d).nodes.length,
+      (((linkTree L n d).nodes[parentIdx (linkTree L n d).nodes c]).I = c ∨
+       ((linkTree L n d).nodes[parentIdx (linkTree L n d).nodes c]).J = c) ∧
+      c < 2 * n - 2 - parentIdx (linkTree L n d).nodes c :=
+  parentIdx_spec (linkTree_wellFormed L n hn d) hn c hc
+
+/-- `esl_tree_SetCladesizes` on the result counts the taxa below each node (`cladesizes_count_leaves` holds for any node list) -/
+theorem linkage_cladesizes (L : Link) (n : Nat) (d : Nat → Nat → ℚ) (c : Nat) :
+    (kclades n (linkTree L n d).nodes.reverse).getD c 0 = ((leafSets n (linkTree L n d).nodes.reverse).getD c []).length :=
+  (kclades_eq_leaves n _).2 c
+
+/-- heights, for EVERY matrix and EVERY mode: taxa are at 0; the first node is recorded at the minimum entry of the matrix
+    (halved in an additive tree); `ld`/`rd` are the node's own value in a linkage tree and EXACTLY the height difference to
+    the child in an additive tree (the `ESL_MAX(0., …)` clamp never acts over ℚ); a child node is never recorded higher than
+    its parent; and the recorded values never decrease from one created node to the next — single linkage included: all four
+    merge rules are reducible. -/
+theorem linkage_heights (L : Link) (n : Nat) (hn : 2 ≤ n) (d : Nat → Nat → ℚ) :
+    (∀ t, t < n → (linkTree L n d).hgt.getD t 0 = 0) ∧
+    (linkTree L n d).hgt.getD n 0 = L.hOf (kMin (kinitMx n d)).1 ∧
+    ∀ s (h : s < (linkTree L n d).nodes.reverse.length),
+      ((linkTree L n d).nodes.reverse[s]).l =
+        (if L.isLinkage then (linkTree L n d).hgt.getD (n + s) 0
+         else (linkTree L n d).hgt.getD (n + s) 0 - (linkTree L n d).hgt.getD ((linkTree L n d).nodes.reverse[s]).I 0) ∧
+      ((linkTree L n d).nodes.reverse[s]).r =
+        (if L.isLinkage then (linkTree L n d).hgt.getD (n + s) 0
+         else (linkTree L n d).hgt.getD (n + s) 0 - (linkTree L n d).hgt.getD ((linkTree L n d).nodes.reverse[s]).J 0) ∧
+      (n ≤ ((linkTree L n d).nodes.reverse[s]).I →
+        (linkTree L n d).hgt.getD ((linkTree L n d).nodes.reverse[s]).I 0 ≤ (linkTree L n d).hgt.getD (n + s) 0) ∧
+      (n ≤ ((linkTree L n d).nodes.reverse[s]).J →
+        (linkTree L n d).hgt.getD ((linkTree L n d).nodes.reverse[s]).J 0 ≤ (linkTree L n d).hgt.getD (n + s) 0) ∧
+      (0 < s → (linkTree L n d).hgt.getD (n + s - 1) 0 ≤ (linkTree L n d).hgt.getD (n + s) 0) :=
+  linkTree_heights' L n hn d
+
+/-- every merge rule keeps the new distances between the two it merges' common bounds -/
+theorem linkage_merge_reducible (L : Link) (rows : Array (Array ℚ)) (nI nJ I J x : Nat) (hI : 0 < nI) (hJ : 0 < nJ) (lo : ℚ)
+    (h1 : lo ≤ kdist rows I x) (h2 : lo ≤ kdist rows J x) : lo ≤ lmerged L rows nI nJ I J x :=
+  lmerged_lower L rows nI nJ I J x hI hJ h1 h2
+
+/-- branch lengths are ≥ 0 in every mode when no distance is negative … -/
+theorem linkage_branch_lengths_nonneg (L : Link) (n : Nat) (hn : 2 ≤ n) (d : Nat → Nat → ℚ)
+    (hd : ∀ x y, x < y → y < n → 0 ≤ d x y) (s : Nat) (h : s < (linkTree L n d).nodes.reverse.length) :
+    0 ≤ ((linkTree L n d).nodes.reverse[s]).l ∧ 0 ≤ ((linkTree L n d).nodes.reverse[s]).r :=
+  linkTree_branch_nonneg L n hn d hd s h
+
+/-- … and NOT on any input: `esl_tree_UPGMA` on two taxa at distance −1 returns `ld = rd = −1/2` (only a child NODE's height
+    is clamped away; `esl_tree_Validate` rejects that tree) -/
+theorem linkage_branch_lengths_negative_at :
+    ((linkTree (α := ℚ) .upgma 2 (fun _ _ => -1)).nodes.map fun nd => (nd.I, nd.J, nd.l, nd.r)) = [(0, 1, -1/2, -1/2)] ∧
+    ((linkTree (α := ℚ) .single 2 (fun _ _ => -1)).nodes.map fun nd => (nd.I, nd.J, nd.l, nd.r)) = [(0, 1, -1, -1)] := by
+  decide +kernel
+
+/-! non-vacuity: the four modes on `exD` (1/4, 3/4, 1, 1/2, 1, 1/2) (a tie in the second pass of single linkage: the first minimum in position order joins) -/
+example : ((linkTree .wpgma 4 exD).nodes.reverse.map fun nd => (nd.I, nd.J, nd.l, nd.r)) =
+    [(0, 1, 1/8, 1/8), (2, 3, 1/4, 1/4), (4, 5, 9/32, 5/32)] := by decide +kernel
+example : ((linkTree .single 4 exD).nodes.reverse.map fun nd => (nd.I, nd.J, nd.l, nd.r)) =
+    [(0, 1, 1/4, 1/4), (2, 3, 1/2, 1/2), (4, 5, 1/2, 1/2)] := by decide +kernel
+example : ((linkTree .complete 4 exD).nodes.reverse.map fun nd => (nd.I, nd.J, nd.l, nd.r)) =
+    [(0, 1, 1/4, 1/4), (2, 3, 1/2, 1/2), (4, 5, 1, 1)] := by decide +kernel
+example : (toCTree 4 (linkTree .single 4 exD)).left = [2, -2, 0] ∧ (toCTree 4 (linkTree .single 4 exD)).right = [1, -3, -1] ∧
+    (toCTree 4 (linkTree .single 4 exD)).cladesize = [4, 2, 2] := by decide +kernel
+
 /-! ## the other pairwise functions of esl_distance.c -/
 
 /-- esl_dst_{C,X}PairMatch on aligned sequences: columns where both cells are residues over columns where at least one is
@@ -635,5 +712,86 @@ theorem averageId_range (m : Mode) (rows : List Row) (maxc : Nat) (sampled : Lis
 
 example : averageId (α := ℚ) Mode.text [[65, 67], [65, 71], [84, 71]] 5 [] = 1/3 ∧
     averageId (α := ℚ) Mode.text [[65, 67], [65, 71], [84, 71]] 2 [(0, 1), (2, 0)] = 1/4 := by decide +kernel
+
+/-! ## esl_distance.c, every public function, for `esl_dst_C…` (m = `Mode.text`, j = `JCMode.text`) and `esl_dst_X…`
+    (m = `Mode.digital abc`, j = `JCMode.digital abc`) alike; "empty" = no residue (all gaps / missing data / non-residue symbols) -/
+
+/-- `esl_dst_CPairId` and `esl_dst_XPairId`, named explicitly: symmetric, in [0,1], and 0 as soon as EITHER sequence is empty
+    (whichever argument it is) -/
+theorem cPairId_xPairId_symm_range_empty (abc : Abc) (a b : Row) (hl : a.length = b.length) :
+    ∀ m ∈ [Mode.text, Mode.digital abc],
+      pid (α := ℚ) m a b = pid m b a ∧ (0 ≤ pid (α := ℚ) m a b ∧ pid (α := ℚ) m a b ≤ 1) ∧
+      (lenSpec m a = 0 ∨ lenSpec m b = 0 → pid (α := ℚ) m a b = 0) :=
+  fun m _ => ⟨pairId_symm m a b, pairId_range m a b hl, pairId_empty m a b hl⟩
+
+example : pid (α := ℚ) (Mode.digital Abc.amino) [0, 1, 2] [20, 28, 27] = 0 ∧
+    pid (α := ℚ) (Mode.digital Abc.amino) [20, 28, 27] [0, 1, 2] = 0 ∧ pid (α := ℚ) Mode.text [65, 67] [45, 126] = 0 := by
+  decide +kernel
+
+/-- `esl_dst_{C,X}PairMatch`: 0 as soon as either aligned sequence is empty (symmetry and range: `pairMatch_symm_range`) -/
+theorem pairMatch_empty (m : Mode) (a b : Row) (hl : a.length = b.length) (h : lenSpec m a = 0 ∨ lenSpec m b = 0) :
+    pmatch (α := ℚ) m a b = 0 := pmatch_empty m a b hl h
+
+/-- `esl_dst_{C,X}JukesCantor`: a sequence without any canonical residue (text: letter) leaves no column to compare:
+    eslEDIVZERO, distance and variance HUGE_VAL — over every numeric instance -/
+theorem jukesCantor_empty (j : JCMode) (K : Nat) (a b : Row) (hl : a.length = b.length)
+    (h : (∀ x ∈ a, j.ok x = false) ∨ (∀ x ∈ b, j.ok x = false)) :
+    jukesCantor (α := ℝ) j K a b = .edivzero ∧ jukesCantor (α := Float) j K a b = .edivzero :=
+  ⟨EaselModel.Weights.jukesCantor_empty j K a b hl h, EaselModel.Weights.jukesCantor_empty j K a b hl h⟩
+
+/-- the Jukes-Cantor distance is infinite exactly when the fraction of identical columns n1/(n1+n2) is at most 1/K -/
+theorem jukescantor_infinite_iff (n1 n2 K : Nat) (hK : 2 ≤ K) (hpos : 0 < n1 + n2) :
+    jukescantor (α := ℝ) n1 n2 K = .saturated ↔ n1 * K ≤ n1 + n2 :=
+  jukescantor_saturated_iff n1 n2 K hK hpos
+
+example : (1 : Nat) * 4 ≤ 1 + 3 ∧ ¬ (2 * 4 ≤ 2 + 2) := by decide
+
+/-- `esl_dst_{C,X}DiffMx` (row-major N×N): 0 on the diagonal, 1 − pairwise identity elsewhere, symmetric, in [0,1]; an empty
+    row is at distance exactly 1 from every other row -/
+theorem diffMx_spec (m : Mode) (rows : List Row) (i j : Nat) (hi : i < rows.length) (hj : j < rows.length) :
+    ((diffMx (α := ℚ) m rows).getD (i * rows.length + j) 0 =
+      if i = j then 0 else 1 - pid (α := ℚ) m (rows.getD i []) (rows.getD j [])) ∧
+    (diffMx (α := ℚ) m rows).getD (i * rows.length + j) 0 = (diffMx (α := ℚ) m rows).getD (j * rows.length + i) 0 ∧
+    (0 ≤ (diffMx (α := ℚ) m rows).getD (i * rows.length + j) 0 ∧ (diffMx (α := ℚ) m rows).getD (i * rows.length + j) 0 ≤ 1) ∧
+    (i ≠ j → (rows.getD i []).length = (rows.getD j []).length →
+      lenSpec m (rows.getD i []) = 0 ∨ lenSpec m (rows.getD j []) = 0 →
+      (diffMx (α := ℚ) m rows).getD (i * rows.length + j) 0 = 1) := by
+  refine ⟨diffMx_entry m rows i j hi hj, (diffMx_symm_range m rows i j hi hj).1, (diffMx_symm_range m rows i j hi hj).2, ?_⟩
+  intro hne hl he
+  rw [diffMx_entry m rows i j hi hj, if_neg hne, pairId_empty m _ _ hl he]; norm_num
+
+/-- `esl_dst_{C,X}JukesCantorMx`: symmetric entries; it fails (both matrices NULL) exactly when the distance call of some
+    pair i < j fails (eslEINVAL unaligned / eslEDIVZERO no compared column — e.g. an empty row, `jukesCantor_empty`) -/
+theorem jukesCantorMx_spec (j : JCMode) (K : Nat) (rows : List Row) :
+    (∀ a b, jcMxEntry (α := ℝ) j K rows a b = jcMxEntry j K rows b a) ∧
+    (jcMxError (α := ℝ) j K rows = none ↔
+      ∀ a b, a < b → b < rows.length →
+        jukesCantor (α := ℝ) j K (rows.getD a []) (rows.getD b []) ≠ .einval ∧
+        jukesCantor (α := ℝ) j K (rows.getD a []) (rows.getD b []) ≠ .edivzero) :=
+  ⟨jcMxEntry_symm j K rows, jcMxError_none_iff j K rows⟩
+
+/-- `esl_dst_XAvgConnectivity` (`f` = pairwise identity, `sampled` = the max_comparisons pairs drawn from the Mersenne Twister
+    seeded with 42): the identity half IS `esl_dst_XAverageId`; the connectivity half is a fraction in [0,1]; in the exhaustive
+    branch it is the number of pairs i < j with identity STRICTLY above the threshold over N(N−1)/2 -/
+theorem avgConnectivity_spec (f : Row → Row → ℚ) (rows : List Row) (maxc : Nat) (thresh : ℚ) (sampled : List (Nat × Nat))
+    (hs : sampled.length = maxc) :
+    (avgConnectivity f rows maxc thresh sampled).1 = average f rows maxc sampled ∧
+    (0 ≤ (avgConnectivity f rows maxc thresh sampled).2 ∧ (avgConnectivity f rows maxc thresh sampled).2 ≤ 1) ∧
+    (2 ≤ rows.length → rows.length * rows.length ≤ 2 * maxc →
+      (avgConnectivity f rows maxc thresh sampled).2 =
+        (((allPairs rows.length).countP fun p => decide (thresh < f (rows.getD p.1 []) (rows.getD p.2 [])) : Nat) : ℚ) /
+          ((rows.length * (rows.length - 1) / 2 : Nat) : ℚ)) :=
+  ⟨(EaselModel.Weights.avgConnectivity_spec f rows maxc thresh sampled hs).1,
+   (EaselModel.Weights.avgConnectivity_spec f rows maxc thresh sampled hs).2,
+   fun hN hx => avgConnectivity_exhaustive f rows maxc thresh sampled hN hx⟩
+
+/-- `esl_dst_XAvgSubsetConnectivity` on the index list V is `esl_dst_XAvgConnectivity` on the rows V names, in V's order -/
+theorem avgSubsetConnectivity_is (f : Row → Row → ℚ) (rows : List Row) (V : List Nat) (maxc : Nat) (thresh : ℚ)
+    (sampled : List (Nat × Nat)) :
+    avgSubsetConnectivity f rows V maxc thresh sampled = avgConnectivity f (V.map fun v => rows.getD v []) maxc thresh sampled :=
+  rfl
+
+example : avgConnectivity (pid (α := ℚ) Mode.text) [[65, 67], [65, 71], [84, 71]] 5 (1/4) [] = (1/3, 2/3) ∧
+    avgSubsetConnectivity (pid (α := ℚ) Mode.text) [[65, 67], [65, 71], [84, 71]] [2, 0] 5 0 [] = (0, 0) := by decide +kernel
 
 end EaselModel.Props.C16
